@@ -6,6 +6,8 @@ PRELUDE = r'''
 from hszinc.grid import Grid
 from hszinc.datatypes import Ref, MARKER
 from hszinc.version import Version
+from hszinc.sortabledict import SortableDict
+from hszinc.metadata import MetadataObject
 
 OBS = '@OBS@'          # 'list' (C14) or 'id' (C15)
 MAXN = @MAXN@
@@ -16,7 +18,7 @@ def conc(x, lo, hi):
             return d
     return lo
 
-# row kinds: 0 no id; 1 id 'x'; 2 id 1 (int); 3 id Ref('x'); 4 id '1' (same string form as the int 1)
+# row kinds: 0 no id; 1 id 'x'; 2 id 1 (int); 3 id Ref('x'); 4 id 0 (a falsy id); 5 id '1' (same string form as the int 1); 6 id '' (falsy)
 NKIND = @NKIND@
 def mkrow(kind, a):
     kind = conc(kind, 0, NKIND - 1)
@@ -28,9 +30,13 @@ def mkrow(kind, a):
         return {'id': 1, 'a': a}
     if kind == 3:
         return {'id': Ref('x'), 'a': a}
-    return {'id': '1', 'a': a}
+    if kind == 4:
+        return {'id': 0, 'a': a}
+    if kind == 5:
+        return {'id': '1', 'a': a}
+    return {'id': '', 'a': a}
 
-LOOKUP_KEYS = ['x', '1', '@x', 'zz', Ref('x'), Ref('zz')]
+LOOKUP_KEYS = ['x', '1', '@x', 'zz', Ref('x'), Ref('zz'), '0', '']
 
 def valid_state(n, r0, r1, r2):
     if not (0 <= n <= MAXN):
@@ -178,8 +184,9 @@ def gen(maxn, nkind):
         'row = mkrow(rk, 7)\nreturn step(g, m, lambda: g.__setitem__(i, row), lambda: m.__setitem__(i, row), m0)', 'g[i] = row')
     add('delitem', 'i: int', IDX,
         'return step(g, m, lambda: g.__delitem__(i), lambda: m.__delitem__(i), m0)', 'del g[i]')
-    add('delslice', 'a: int, b: int', '-2 <= a <= MAXN and -2 <= b <= MAXN',
-        'return step(g, m, lambda: g.__delitem__(slice(a, b)), lambda: m.__delitem__(slice(a, b)), m0, single=False)', 'del g[a:b]')
+    add('delslice', 'a: int, b: int, an: bool, bn: bool, st: int', '-2 <= a <= MAXN and -2 <= b <= MAXN and 0 <= st <= 4',
+        'sl = slice(None if an else conc(a, -2, MAXN), None if bn else conc(b, -2, MAXN), [None, 1, 2, -1, -2][conc(st, 0, 4)])\n'
+        'return step(g, m, lambda: g.__delitem__(sl), lambda: m.__delitem__(sl), m0, single=False)', 'del g[a:b:step] (bounds present or omitted, step None / 1 / 2 / -1 / -2)')
     add('pop', 'i: int, noarg: bool', IDX,
         'if noarg:\n    return step(g, m, lambda: g.pop(), lambda: m.pop(), m0)\n'
         'return step(g, m, lambda: g.pop(i), lambda: m.pop(i), m0)', 'pop() / pop(i)')
@@ -195,8 +202,8 @@ def gen(maxn, nkind):
     add('reverse_clear', 'clear: bool', '',
         'if clear:\n    return step(g, m, lambda: g.clear(), lambda: m.clear(), m0, single=False)\n'
         'return step(g, m, lambda: g.reverse(), lambda: m.reverse(), m0, single=False)', 'reverse() / clear()')
-    add('nondict', 'op: int, i: int, bad: int', '0 <= op <= 3 and -1 <= i <= MAXN and 0 <= bad <= 2',
-        'junk = [None, [("id", "x")], "row"][conc(bad, 0, 2)]\n'
+    add('nondict', 'op: int, i: int, bad: int', '0 <= op <= 3 and -1 <= i <= MAXN and 0 <= bad <= 5',
+        'junk = [None, [("id", "x")], "row", SortableDict([("id", "x")]), MetadataObject([("id", "q")]), 7][conc(bad, 0, 5)]\n'
         'op = conc(op, 0, 3)\n'
         'f = [lambda: g.append(junk), lambda: g.insert(i, junk), lambda: g.__setitem__(0, junk), lambda: g.extend([junk])][op]\n'
         'r = outcome(f)\nreturn r == ("raises", "TypeError") and unchanged(g, m0) and observe(g, m0)', 'non-dict rows are refused with TypeError, grid unchanged')
@@ -228,8 +235,8 @@ def gen(maxn, nkind):
 
 def run_obs(chk, obs):
     quick = chk.tier == 'quick'
-    maxn, nkind = (2, 4) if quick else (3, 5)
-    chk.bounds = dict(rows_in_pre_state='0..%d' % maxn, row_kinds=['no id', "id 'x'", 'id 1 (int)', "id Ref('x')", "id '1'"][:nkind],
+    maxn, nkind = (2, 5) if quick else (3, 7)
+    chk.bounds = dict(rows_in_pre_state='0..%d' % maxn, row_kinds=['no id', "id 'x'", 'id 1 (int)', "id Ref('x')", 'id 0', "id '1'", "id ''"][:nkind],
                       indices='-(max+1)..(max+1)', index_state='never built (fresh grid / slice) or built',
                       history='one operation from an arbitrary state; two-step family (insert then delete/replace/slice-op); derived-grid family (slice or filter result, then mutate parent or derived grid, observe both)')
     chk.assumptions = ['pre-state: rows are placed directly in Grid._row and the id index is None or reindex()ed - the states reachable by histories of inserts/slices',
